@@ -279,6 +279,12 @@ MUTANTS = [
     M("c18-zero-division-elsewhere", "C18", (ES, "    def _absolute_change(self):\n        return abs(self._change_in_metric())", "    def _absolute_change(self):\n        return abs(self._change_in_metric()) / (1.0 if self._change_in_metric() != 0 else 0.0)")),
     # ---- C17
     M("c17-metric-period-off", "C17", (ME, "        if epoch % self.period == 0:\n            metric_vals_for_epoch = {}", "        if (epoch + 1) % self.period == 0:\n            metric_vals_for_epoch = {}")),
+    M("c17-evaluator-sees-stale-parameters", "C17", (ME, "                val = metric_fn(nn_state, **self.metric_kwargs)\n",
+       "                _w = nn_state.rbm_am.weights.data.clone() if hasattr(nn_state.rbm_am, \"weights\") else None\n"
+       "                _old = getattr(self, \"_w_prev\", None)\n"
+       "                if _old is not None and _w is not None and _old.shape == _w.shape:\n                    nn_state.rbm_am.weights.data.copy_(_old)\n"
+       "                val = metric_fn(nn_state, **self.metric_kwargs)\n"
+       "                if _w is not None:\n                    nn_state.rbm_am.weights.data.copy_(_w)\n                self._w_prev = _w\n")),
     M("c17-last-not-updated", "C17", (ME, "            self.last = metric_vals_for_epoch.copy()\n", "            self.last = metric_vals_for_epoch.copy() if not self.last else self.last\n")),
     M("c17-epochs-indices", "C17", (ME, "        return np.array([epoch for epoch, _ in self.past_values])", "        return np.array([i + 1 for i, _ in enumerate(self.past_values)])")),
     M("c17-get-value-ignores-index", "C17", (OE, "        index = index if index is not None else -1\n        return self.past_values[index][-1][name]", "        index = -1\n        return self.past_values[index][-1][name]")),
